@@ -430,6 +430,9 @@ func (r *FnRun) enterLoop(li *loopInfo, edges []edge) *State {
 	}
 	// check invariants on entry
 	envIn := r.loopEnv(stIn, in.phis)
+	for _, ld := range li.Spec.Lets {
+		envIn.vars[ld.Name] = envIn.Eval(ld.E)
+	}
 	for _, u := range li.Spec.Uses {
 		r.assume(stIn, envIn.useAxiom(u))
 	}
@@ -470,12 +473,38 @@ func (r *FnRun) enterLoop(li *loopInfo, edges []edge) *State {
 	for _, inv := range li.Spec.Inv {
 		r.assume(cur, envH.EvalBool(inv.E))
 	}
+	for _, ld := range li.Spec.Lets {
+		if r.loopLets == nil {
+			r.loopLets = map[string]CV{}
+		}
+		v := envH.Eval(ld.E)
+		r.loopLets[ld.Name] = v
+		envH.vars[ld.Name] = v
+	}
 	for _, u := range li.Spec.Uses {
 		r.assume(cur, envH.useAxiom(u))
+	}
+	for i, u := range li.Spec.Applies {
+		p, q := envH.applyLemma(u, true)
+		if w := li.Spec.ApplyWhen[i]; w != nil {
+			c := envH.EvalBool(w)
+			if p != nil {
+				p = r.tb().Implies(c, p)
+			}
+			q = r.tb().Implies(c, q)
+		}
+		if p != nil {
+			r.oblige(cur, "apply", fmt.Sprintf("loop%d.%d:%s", li.Ordinal, i+1, u.Name), p, h.Instrs[0].Pos(), "premise of "+u.String()+" at the loop head", nil)
+		}
+		r.assume(cur, q)
 	}
 	if li.Spec.Dec != nil {
 		d := envH.coerceConst(envH.Eval(li.Spec.Dec), types.Typ[types.Int])
 		li.decAtHeader = r.toInt64(r.scalar(d.V), d.T)
+	}
+	if li.Spec.Progress != nil {
+		d := envH.coerceConst(envH.Eval(li.Spec.Progress), types.Typ[types.Int])
+		li.progAtHeader = r.toInt64(r.scalar(d.V), d.T)
 	}
 	return cur
 }
@@ -535,6 +564,9 @@ func (r *FnRun) rootEnvFor(st *State) *Env {
 	env := base.child()
 	env.cur = st
 	env.old = r.rootEntry()
+	for n, v := range r.loopLets {
+		env.vars[n] = v
+	}
 	return env
 }
 
@@ -565,6 +597,11 @@ func (r *FnRun) backEdge(li *loopInfo, from *ssa.BasicBlock, st *State) {
 		r.oblige(st, "dec", fmt.Sprintf("loop%d", li.Ordinal), g, h.Instrs[0].Pos(), "loop measure is bounded below and decreases: "+li.Spec.Dec.String(), []string{"C06"})
 	} else if r.root.panics {
 		r.oblige(st, "dec", fmt.Sprintf("loop%d", li.Ordinal), tb.False(), h.Instrs[0].Pos(), "loop has no decreases clause", []string{"C06"})
+	}
+	if li.Spec.Progress != nil && r.root.panics {
+		d := env.coerceConst(env.Eval(li.Spec.Progress), types.Typ[types.Int])
+		dn := r.toInt64(r.scalar(d.V), d.T)
+		r.oblige(st, "trip-bound", fmt.Sprintf("loop%d", li.Ordinal), tb.SGt(dn, li.progAtHeader), h.Instrs[0].Pos(), "every iteration consumes input: "+li.Spec.Progress.String()+" strictly increases", []string{"C06"})
 	}
 }
 
